@@ -307,24 +307,14 @@ func (d *concDrv) tableAll() []map[string]any {
 	for _, th := range d.thetas {
 		thetas[th] = true
 	}
+	d.tieThetas = thetas
 	for qi, q := range d.cp.Queries {
 		topo := d.queryTopo(q)
 		for tol := range d.tols {
 			for v, vi := range d.vers {
 				c := detection.MatchSignature(topo, "fn", vi.sig, float64(tol)/entUnit).Confidence
 				cq, _ := quantConf(c)
-				// a confidence that is not exactly a threshold but rounds onto it (0.7999999999999999 vs
-				// 0.8): keep the order the real float comparison c >= threshold sees
-				for th := range thetas {
-					thf := float64(th) / 1e9
-					if cq == th && c != thf {
-						if c < thf {
-							cq = th - 1
-						} else {
-							cq = th + 1
-						}
-					}
-				}
+				cq = d.orderFaithful(c, cq)
 				out = append(out, map[string]any{"q": qi + 1, "ver": v, "tol": tol, "conf": cq})
 			}
 		}
